@@ -1,13 +1,5 @@
-# Human-written text per property for MANIFEST.json (see tools/gen_manifest.py).
+# Engines and not-applicable reasons for MANIFEST.json (per-property text lives in table/CNN.py).
 ENGINES = [
     dict(name="codec", path="harness/c16_codec", serves_properties=["C16"], kind_free_text="direct calls of pure functions / codecs with rapid-generated inputs, plus native go fuzz targets in the thorough tier"),
 ]
 NOT_APPLICABLE = {}
-TEXT = {}
-TEXT["C16"] = dict(
-    engine="codec",
-    design_ref="DESIGN.md §4 C16",
-    technique="property-based testing (rapid): round-trip and prefix-then-error oracles over generated message streams; native go fuzzing of both decoders in the thorough tier",
-    level_text="Generated-input exploration: tens of thousands of multi-group message sequences through the real msgappv2 and message encoders/decoders compared message by message (after the whole stream is decoded, so buffer aliasing shows); every truncation point of small streams must give a prefix of the sent sequence followed by an error; mutated streams and fuzzed bytes must not panic or allocate from unchecked lengths. No absence claim.",
-    level_note="Trusted: gogo-protobuf marshal/unmarshal of raftpb; the canonical text rendering used for equality (nil and empty slices identified). Inputs to msgappv2 are restricted to the MsgApp shape raft produces. For corrupted (not truncated) streams the format has no checksum, so only crash/allocation safety is decided.",
-)
